@@ -917,6 +917,24 @@ FAILS = not c11.same_num(got, want, 1e-9)
 """
 
 
+def py_snippet_direct(case, lid, idx, want):
+    """Reproduction for a leaf the term reads only directly (looked up by the original tensor)."""
+    return f"""
+import sys
+sys.path.insert(0, "/verif")
+from fractions import Fraction
+from fv.harness import c11
+case = c11.case_from_json({jsonable(case)!r})
+r = c11.run_impl(case)
+assert r["status"] == "value", r
+F = sorted(c11.free_vars(case["expr"], case["leaves"]))
+got = c11.marginal_table(r["bwd"][r["leaves"][{lid}]], case["leaves"][{lid}]["axes"], F, case["sz"], case["sr"])[{idx!r}]
+want = Fraction({str(want)!r})
+print("adjoint of leaf {lid} at {idx}: funsor", float(got), " derivative", float(want))
+FAILS = not c11.same_num(got, want, 1e-9)
+"""
+
+
 def check_case(ctx, case, use_driver=True, gate=True, label="clean"):
     """Run one case.  Returns a dict describing what was seen:
        status: declined | beyond | ok | wrong;  wrong carries (lid, idx, want, got, model_fs)."""
@@ -955,11 +973,10 @@ def check_case(ctx, case, use_driver=True, gate=True, label="clean"):
         try:
             case2, keys = case_from_lazy(case, r)
         except Beyond as e:
-            ctx.count(f"{label}:beyond-model:{e}")
-            if gate:
-                return dict(status="beyond")
-            # dedicated streams: leaves that the original term only reads directly are still leaves of the
-            # optimizer's output (same hash-consed tensor); compare those with the derivative of the original
+            ctx.count(f"{label}:beyond-model:{str(e).split('__BOUND')[0]}")
+            # the optimizer's output cannot be re-read into the model's syntax (e.g. nested binders with one
+            # base name).  Leaves that the original term only reads directly are still leaves of that output
+            # (same hash-consed tensor): their adjoints must be the derivatives of the original term.
             direct = {lid for lid in case["leaves"]
                       if all(not t[2] for t in subterms(case["expr"]) if t[0] == "acc" and t[1] == lid)
                       and not any(t[0] == "cat" and lid in t[2] for t in subterms(case["expr"]))}
@@ -974,7 +991,12 @@ def check_case(ctx, case, use_driver=True, gate=True, label="clean"):
                 for idx in itertools.product(*[range(s_) for _, s_ in axes]):
                     w = grads[lid].get(idx, Fraction(0))
                     if not same_num(got[idx], w, tol):
+                        if gate:
+                            ctx.fail("input", "C11.adjoint-ne-derivative",
+                                     witness=dict(case=jsonable(case), leaf=lid, index=list(idx)),
+                                     expected=str(w), got=str(got[idx]), python=py_snippet_direct(case, lid, idx, w))
                         return dict(status="wrong", what="adjoint", lid=lid, idx=idx, want=w, got=got[idx], model_fs=None)
+                ctx.count(f"{label}:beyond-model:direct-leaf-compared")
             return dict(status="beyond")
         v2 = violated(case2) - {"opt-rebinding"}
         if v2:
